@@ -407,12 +407,12 @@ class TrigTime:
             #
             State.set(__test_handshake__[0], __test_handshake__[1])
 
+        startup_time = None
         while True:
             ret = None
             this_timeout = None
             state_trig_timeout = False
             time_next = None
-            startup_time = None
             now = dt_now()
             if startup_time is None:
                 startup_time = now
